@@ -873,7 +873,8 @@ func genBehav(t *tape.Tape, p Profile, e *ExtSym) ExtBehav {
 		b.Set = append(b.Set, 6)
 	}
 	if p.ExtLang && t.Chance(1, 4) {
-		b.Lang = []string{"nor", "swa", "no", "fr", "xx", "klingon", "fra", "eng"}[t.Int(8)]
+		// 639-3 codes, 639-1 codes, the 639-2 bibliographic forms that differ from 639-3 (fre, ger), and strings that are no code
+		b.Lang = []string{"nor", "swa", "no", "fr", "xx", "klingon", "fra", "eng", "fre", "ger", "de"}[t.Int(11)]
 		b.Set = append(b.Set, 7)
 	}
 	return b
